@@ -40,6 +40,9 @@ def _sym_special(name, x, params):
     if name == 'hyperu':
         return S.app('hyperu', (x,), (Fraction(params[0]).limit_denominator(1000),
                                      Fraction(params[1]).limit_denominator(1000)))
+    if name == 'expit':
+        e = x.exp()
+        return e / (1 + e)
     if ctx is not None:
         v = ctx.atom_value(name, x)
         if v is not None:
